@@ -21,6 +21,7 @@ import (
 	"go/constant"
 	"go/token"
 	"go/types"
+	"os"
 	"strings"
 	"unicode/utf8"
 
@@ -129,6 +130,16 @@ func (f *factSet) close() {
 			break
 		}
 	}
+}
+
+// inconsistent reports whether the constraints are unsatisfiable (the program point is unreachable).
+func (f *factSet) inconsistent() bool {
+	for i := range f.d {
+		if f.d[i][i] < 0 {
+			return true
+		}
+	}
+	return false
 }
 
 // le: a - b <= c provable?
@@ -1388,4 +1399,23 @@ func minSprintfLen(format string) int {
 		n += w
 	}
 	return n
+}
+
+// edgeFeasible: the edge from block p to block to is not ruled out by the integer conditions
+// that dominate it.
+func (p *prover) edgeFeasible(from, to *ssa.BasicBlock) bool {
+	last := from.Instrs[len(from.Instrs)-1]
+	cl := p.collectEdge(last, to)
+	cl.f.close()
+	if os.Getenv("WLDEBUG") != "" {
+		fmt.Fprintf(os.Stderr, "edgeFeasible b%d->b%d inconsistent=%v nodes=%v\n", from.Index, to.Index, cl.f.inconsistent(), cl.f.idx)
+		for n, i := range cl.f.idx {
+			for m, j := range cl.f.idx {
+				if i != j && cl.f.d[i][j] < inf {
+					fmt.Fprintf(os.Stderr, "   %q - %q <= %d\n", n, m, cl.f.d[i][j])
+				}
+			}
+		}
+	}
+	return !cl.f.inconsistent()
 }
